@@ -285,6 +285,7 @@ def check(ctx, report):
         array_work(ctx, report, pt, sa)
     report.floor('C19.R1', 300, 'classes in the containment graph')
     stateless_parsing(ctx, report)
+    module_level_state(ctx, report)
     linear_scans_in_loops(ctx, report)
     parser_construction(ctx, report)
     report.floor('C19.R4', 60, 'loop/item obligations')
@@ -631,6 +632,65 @@ def rooted_returning_methods(model):
             if isinstance(n, ast.Return) and n.value is not None and isinstance(n.value, (ast.Attribute, ast.Subscript)) and class_rooted(n.value, f, model, ()):
                 out.add(f.name)
     return out
+
+
+MUTATING_METHODS = ('append', 'extend', 'insert', 'pop', 'remove', 'clear', 'sort', 'reverse', 'update', 'setdefault', 'add', 'discard', 'popitem',
+                    'appendleft', 'popleft')
+
+
+def module_level_state(ctx, report, RULE='C19.R10', title=None):
+    """A container bound at module level (``_CACHE = {}``) that a function of the package changes is state that outlives the call:
+    what a parse returns or costs then depends on what was parsed before (a memo keyed by less than everything the entry depends on
+    answers for another input).  Every function is read: item stores, deletions and mutating method calls on a module level
+    container - directly or through a local bound to an element of it - are findings; reading such a table is not."""
+    from .c13 import is_mutable_container
+    model = ctx.model
+    report.rule(RULE, title or 'no function changes a container that lives at module level (results and work independent of earlier calls)')
+    n = 0
+    for m in model.repo_modules():
+        tables = {name for name, b in m.bindings.items() if b[0] == 'var' and isinstance(b[1], ast.AST) and is_mutable_container(b[1])}
+        n += len(tables)
+        if not tables:
+            continue
+        for f in model.functions():
+            if f.module is not m:
+                continue
+            local_names = {a.arg for a in f.node.args.args + f.node.args.kwonlyargs}
+            shadowed = {t.id for st in ast.walk(f.node) if isinstance(st, ast.Assign) for t in st.targets if isinstance(t, ast.Name)} | local_names
+            roots = {t for t in tables if t not in shadowed or any(isinstance(g, ast.Global) and t in g.names for g in ast.walk(f.node))}
+            # locals bound to an element of a table (``words = _TABLE.setdefault(k, {})`` / ``_TABLE[k]``)
+            aliases = set()
+            for st in ast.walk(f.node):
+                if isinstance(st, ast.Assign) and len(st.targets) == 1 and isinstance(st.targets[0], ast.Name):
+                    v = st.value
+                    base = v
+                    while isinstance(base, (ast.Subscript, ast.Call, ast.Attribute)):
+                        base = base.value if isinstance(base, (ast.Subscript, ast.Attribute)) else base.func
+                    if isinstance(base, ast.Name) and base.id in roots and isinstance(v, (ast.Subscript, ast.Call)):
+                        aliases.add(st.targets[0].id)
+            watched = roots | aliases
+            for x in ast.walk(f.node):
+                how = None
+                if isinstance(x, ast.Subscript) and isinstance(x.ctx, (ast.Store, ast.Del)):
+                    b = x.value
+                    while isinstance(b, ast.Subscript):
+                        b = b.value
+                    if isinstance(b, ast.Name) and b.id in watched:
+                        how = '%s is stored into' % ast.unparse(x)[:40]
+                elif isinstance(x, ast.Call) and isinstance(x.func, ast.Attribute) and x.func.attr in MUTATING_METHODS:
+                    b = x.func.value
+                    while isinstance(b, ast.Subscript):
+                        b = b.value
+                    if isinstance(b, ast.Name) and b.id in watched:
+                        how = '%s()' % ast.unparse(x.func)[:40]
+                if how:
+                    root = b.id if b.id in roots else 'reached through %s' % b.id
+                    report.add(RULE, '%s@module-state[%s]' % (f.construct, root),
+                               '%s: the module level container %s is changed by a function of the package, so a later call sees what an earlier '
+                               'one left there' % (how, root))
+                    break
+    report.count(RULE, n + len(list(model.functions())))
+    report.floor(RULE, 1000, 'functions and module level containers')
 
 
 def stateless_parsing(ctx, report, RULE='C19.R5', modules=None, allow_memo=True,
